@@ -56,12 +56,13 @@ def warm(measure_cpu: bool = True):
     if measure_cpu:
         for n in _names:
             t0 = time.process_time()
-            try:
-                for r in corpus.extractor_for(n)(io.BytesIO(_docs[n]), None):
-                    r.get_full_text()
-            except Exception:
-                pass
-            _base_cpu[n] = time.process_time() - t0
+            with K.cpu_guard(60):
+                try:
+                    for r in corpus.extractor_for(n)(io.BytesIO(_docs[n]), None):
+                        r.get_full_text()
+                except Exception:
+                    pass
+            _base_cpu[n] = min(time.process_time() - t0, 1.0)
 
 
 def _ole_streams_with_objects(name) -> list[int]:
@@ -86,10 +87,12 @@ def _ole_streams_with_objects(name) -> list[int]:
 
     olefile.OleFileIO.openstream = openstream
     try:
-        for r in corpus.extractor_for(name)(io.BytesIO(_docs[name]), None):
-            pass
-    except Exception:
-        pass
+        with K.cpu_guard(60):
+            try:
+                for r in corpus.extractor_for(name)(io.BytesIO(_docs[name]), None):
+                    pass
+            except Exception:
+                pass
     finally:
         olefile.OleFileIO.openstream = real
     return hits
